@@ -31,7 +31,7 @@ VARIABLES i,      \* next line
 Trace == ndJsonDeserialize(IOEnv.VERIF_TRACE)
 tvars == <<vars, i, bind, rets>>
 
-TraceSlots == <<"t1", "t2", "t3">>
+TraceSlots == <<"t1", "t2", "t3", "t4", "t5", "t6", "t7", "t8", "t9", "t10">>   \* >= ticks per recorded run: Tick is never short of a slot
 ToSet(s) == {s[j] : j \in DOMAIN s}
 
 ResetAll ==
